@@ -204,9 +204,15 @@ func timeoutSeries(lat []string, pool int, bound int) *vsched.Scenario {
 // askMethodScenario: the method-style constructors on the Ask utility instance (Ask.New,
 // Ask.NewByOptions): n concurrent askers, each must get the answer to its own payload.
 func askMethodScenario(n int, byOptions bool, bound int) *vsched.Scenario {
+	return askMethodScenarioF(n, byOptions, false, bound)
+}
+
+// factory: New / NewByOptions are called on an Ask that was itself constructed (a typed "factory"
+// instance), not on the zero-value utility instance: the derived asks are still independent requests.
+func askMethodScenarioF(n int, byOptions, factory bool, bound int) *vsched.Scenario {
 	fam := "ask-method"
 	return &vsched.Scenario{
-		Name:     fmt.Sprintf("ask/method-constructors/byOptions=%v/askers%d", byOptions, n),
+		Name:     fmt.Sprintf("ask/method-constructors/byOptions=%v/on-constructed-instance=%v/askers%d", byOptions, factory, n),
 		Bound:    bound,
 		TimerDev: true,
 		Body: func() {
@@ -216,12 +222,16 @@ func askMethodScenario(n int, byOptions bool, bound int) *vsched.Scenario {
 				vsched.Yield()
 				a.Reply(answer(a.Message.(int)))
 			})
+			proto := &fpgo.Ask
+			if factory {
+				proto = fpgo.AskNewGenerics[interface{}, interface{}](0)
+			}
 			for i := 0; i < n; i++ {
 				p := i + 1
 				vsched.GoNamed(fmt.Sprintf("asker%d", i), func() {
-					ask := fpgo.Ask.New(p)
+					ask := proto.New(p)
 					if byOptions {
-						ask = fpgo.Ask.NewByOptions(p, make(chan interface{}))
+						ask = proto.NewByOptions(p, make(chan interface{}))
 					}
 					v := ask.AskOnce(actor)
 					vsched.Event("got", p, fmt.Sprint(v))
@@ -280,7 +290,7 @@ func scenarios(tier string) []*vsched.Scenario {
 			}
 		}
 	}
-	out = append(out, askMethodScenario(2, false, b), askMethodScenario(2, true, b))
+	out = append(out, askMethodScenario(2, false, b), askMethodScenario(2, true, b), askMethodScenarioF(2, false, true, b), askMethodScenarioF(2, true, true, b))
 	for _, pool := range []int{0, 1, 2} {
 		for _, lat := range [][]string{{"edge", "now"}, {"now", "edge", "now"}, {"late", "now"}, {"never", "now", "now"}} {
 			out = append(out, timeoutSeries(lat, pool, b))
